@@ -12,6 +12,7 @@ mod allocrec;
 mod dump;
 mod c06;
 mod c11;
+mod c14;
 
 #[global_allocator]
 static GLOBAL: allocrec::Rec = allocrec::Rec;
@@ -37,6 +38,7 @@ fn main() {
         "C20" => c20::run(&mut out, tier, seed, corpus.as_deref()),
         "C02" => c02::run(&mut out, tier, seed, corpus.as_deref()),
         "C08" => c08::run(&mut out, tier, seed, corpus.as_deref()),
+        "C14" => c14::run(&mut out, tier, seed, corpus.as_deref()),
         "C11" | "C10" => c11::run(&mut out, tier, seed, corpus.as_deref(), prop),
         "C06" | "C07" => c06::run(&mut out, tier, seed, corpus.as_deref(), prop),
         _ => {
